@@ -156,7 +156,9 @@ def post_init_pi(c, q):
     s = c.self; x = z3.Int("s!ii"); q.hyps += [x >= 0, x < N]
     pol = s.attrs["policy"]; want = INITP(ST(x)) if c.has else AC(immediate_greedy(ST(x)))
     ok = z3.And(toz3(s.attrs["iteration"]) == 0, toz3(s.attrs["values"].get((x,))) == INITV(ST(x)), pol.vec((x,)) == want)
-    if c.reset: ok = z3.And(ok, toz3(s.attrs["initial_values"].get((x,))) == INITV(ST(x)))
+    if c.reset:          # the values every later evaluation restarts from are the problem's initial estimates, fixed at construction
+        iv = s.attrs.get("initial_values")
+        ok = z3.And(ok, toz3(iv.get((x,))) == INITV(ST(x))) if isinstance(iv, SArr) else z3.BoolVal(False)
     return ok
 contract(f"{PI}._initialize_solver_state_elements", scenarios=[(f"{'problem_policy' if h else 'default'}.{'reset' if r else 'carry'}.", setup_init_pi(h, r)) for h in (True, False) for r in (False, True)],
     ensures={"policy_evaluated_first_values_initial_iteration_zero": post_init_pi})
